@@ -563,6 +563,10 @@ def call_builtin(interp, name, args, kwargs, site):
         v, c = args
         if isinstance(c, Builtin) and c.name in ABC_ATTR and isinstance(v, ClassVal):
             return all(v.lookup(a) is not None for a in ABC_ATTR[c.name])
+        if isinstance(v, ExcClass):
+            cs = c if isinstance(c, tuple) else (c,)
+            if all(isinstance(c1, ExcClass) for c1 in cs):
+                return any(exc_issubclass(v.name, c1.name) for c1 in cs)
         raise Unsupported("issubclass")
     if name == "hasattr":
         if isinstance(args[0], (Source, UserFn, Opaque)) and interp.side == "impl" and interp.frames and args[1] not in (
